@@ -38,13 +38,25 @@ func genC07Case(t *rapid.T) colCase {
 		case k <= 15:
 			return opSpec{Op: "advance", D: rapid.SampledFrom([]int64{0, 1, 10, 50, 100, 300, 600}).Draw(t, "d7")}
 		default:
+			if rapid.IntRange(0, 9).Draw(t, "memlimit") == 0 {
+				return opSpec{Op: "memlimit"}
+			}
 			if rapid.IntRange(0, 4).Draw(t, "ejkind") == 0 {
 				return opSpec{Op: "eject", Bytes: rapid.SampledFrom([]int{0, 1, 100000000}).Draw(t, "bytes7")}
 			}
 			return opSpec{Op: "eject", Pct: rapid.SampledFrom([]int{5, 10, 30, 50, 80, 99, 100, 150}).Draw(t, "pct7")}
 		}
 	})
-	c.Ops = rapid.SliceOfN(opGen, 4, 45).Draw(t, "ops")
+	// a preamble of spans so that ejections usually meet a populated buffer
+	spanGen := rapid.Custom(func(t *rapid.T) opSpec {
+		o := genSpanOp(t, []string{"incoming", "peer"})
+		o.Kind = rapid.SampledFrom([]string{"child", "child", "event"}).Draw(t, "kind7p")
+		o.Size = rapid.SampledFrom([]int{0, 10, 100, 300, 1000, 5000}).Draw(t, "size7p")
+		o.Late = false
+		return o
+	})
+	pre := rapid.SliceOfN(spanGen, 0, 8).Draw(t, "preamble")
+	c.Ops = append(pre, rapid.SliceOfN(opGen, 4, 45).Draw(t, "ops")...)
 	return c
 }
 
@@ -95,6 +107,36 @@ func judgeC07(c colCase, obs colObs) (res vkit.Result, nt bool) {
 	}
 	views := viewByTrace(c, obs)
 	for _, e := range obs.Ejects {
+		if e.FullPath {
+			// driven through MaxAlloc=1 and the collector's own monitor: everything must go, decided
+			res.Class("full-path-memlimit")
+			for w := range e.After {
+				if len(e.After[w]) > 0 {
+					res.Violate("C07/full-path/buffer-not-emptied", "worker %d: with a 1-byte memory limit the monitor left %v buffered (before: %v)", w, e.After[w], e.Before[w])
+				}
+			}
+			for w := range e.Before {
+				for _, id := range e.Before[w] {
+					d, ok := obs.Decisions[id]
+					if !ok || !d.Found {
+						res.Violate("C07/full-path/ejected-trace-not-decided", "worker %d: trace %s left the buffer without a recorded decision", w, id)
+						continue
+					}
+					if d.Kept {
+						n := 0
+						for _, f := range views[id].Forwarded {
+							if f.OpIndex == e.OpIndex {
+								n++
+							}
+						}
+						if n == 0 {
+							res.Violate("C07/full-path/kept-ejected-trace-not-forwarded", "worker %d: trace %s kept but nothing forwarded during the memory-limit op", w, id)
+						}
+					}
+				}
+			}
+			continue
+		}
 		// spans buffered per trace at the time of the ejection
 		buffered := func(id string) (sp []c07span, total int) {
 			v := views[id]
